@@ -1,7 +1,7 @@
 # fills the round-2 table of DESIGN.md §9.1 from seeded/*-r2-*/meta.json and notes.md
 import json,glob,re
 rows=[];n=0;c=0
-for p in sorted(glob.glob('/verif/seeded/*-r[2345]-m*/meta.json')):
+for p in sorted(glob.glob('/verif/seeded/*-r[23456]-m*/meta.json')):
     m=json.load(open(p)); d=p.rsplit('/',1)[0]
     try:
         first=[l for l in open(d+'/notes.md').read().split('\n') if l.strip()][0]
